@@ -689,6 +689,35 @@ def gen_colliding_labels(ctx, count):
     return out[:count]
 
 
+def gen_component_order(ctx, count):
+    """Hosts whose components are ordered differently by node count and by edge count (a small ring next
+    to a larger tree), with a pattern component that only fits the larger one: any shortcut that ranks or
+    skips host components by a size proxy shows here (seed C06-g)."""
+    rnd = ctx.rnd
+    out = []
+    for _ in range(count):
+        n1 = rnd.choice([3, 3, 4])
+        n2 = rnd.randint(n1 + 1, 6)
+        elems = rnd.choice([["C"], ["C", "C", "N"]])
+        parts = [matchgen.mol_like(rnd, n1, ids=range(0, n1), elems=elems, ring_p=1.0, charge_p=0.0, hcount_absent_p=1.0),
+                 matchgen.mol_like(rnd, n2, ids=range(n1, n1 + n2), elems=elems, ring_p=0.0, charge_p=0.0, hcount_absent_p=1.0)]
+        if rnd.random() < 0.3:
+            parts.append(matchgen.mol_like(rnd, 1, ids=range(n1 + n2, n1 + n2 + 1), elems=elems, charge_p=0.0, hcount_absent_p=1.0))
+        rnd.shuffle(parts)
+        host = matchgen.union(rnd, parts)
+        big = [v for v in host.nodes if n1 <= v < n1 + n2]
+        k = rnd.randint(n1 + 1, n2)
+        core = matchgen.connected_subset(rnd, host, k, start_pool=big)
+        extra = [v for v in host.nodes if v not in core and not (n1 <= v < n1 + n2)]
+        keep = list(core) + ([rnd.choice(extra)] if extra and rnd.random() < 0.5 else [])
+        sub = host.subgraph(keep)
+        pat = matchgen.relabelled_copy(rnd, sub.copy(), base=100)
+        if isinstance(pat, tuple):
+            pat = pat[0]
+        out.append((host, pat, rnd.choice(NODE_KEYS), rnd.choice(EDGE_KEYS), "component-order"))
+    return out
+
+
 def with_cfgs(ctx, pairs, limited=3, forms=0):
     """Two passes: the base (unlimited) configurations, plus limited ones drawn knowing the match count."""
     cases = []
@@ -792,6 +821,8 @@ def run(ctx):
     nrand = 500 if ctx.quick else 6000
     if not ctx.violations:
         evaluate(ctx, with_cfgs(ctx, gen_random(ctx, nrand)), "random")
+    if not ctx.violations:
+        evaluate(ctx, with_cfgs(ctx, gen_component_order(ctx, 120 if ctx.quick else 1500), limited=1), "component-order")
     if not ctx.violations:
         evaluate(ctx, with_cfgs(ctx, gen_selection_history(ctx, 60 if ctx.quick else 600), limited=1), "selection-history")
     if not ctx.violations:
